@@ -72,6 +72,7 @@ def r12_1(prog, rep):
         c = cfg.cond(b)
         if c is None:
             continue
+        c = tc.expand(c)   # a guard may be spelt through a temporary
         texts = [lv(n) for n in walk(c) if n.get("k") == "mem"]
         if any(t.endswith("nsim") for t in texts) and any(t.endswith("max_simul") for t in texts):
             guards.append((b, c))
@@ -119,7 +120,7 @@ def r12_1(prog, rep):
     for p in preds:
         c = rcfg.cond(p)
         if c is not None:
-            ctl = (p, c, rcfg.blocks[p].succs.index(nb))
+            ctl = (p, rt.expand(c), rcfg.blocks[p].succs.index(nb))
     if ctl is None:
         raise AnalysisBroken("R12.1: no controlling condition for the no-run flag assignment")
     pb, pc, psi = ctl
